@@ -3,23 +3,31 @@ C12 — changing how a stream represents phases never changes what it contains.
 
 Adapter for the phase-representation machinery of thermosteam
 (`Stream.phases` / `MultiStream.phases` / `MultiStream.phase` setters, `reduce_phases`, `as_stream`,
-the `vle` / `lle` / `sle` accessors, `MultiStream.__getitem__` phase views, `get_data` / `set_data`),
-generator of operation histories, and the property oracle evaluated on the real objects.
+the `vle` / `lle` / `sle` accessors, `MultiStream.__getitem__` phase views, `get_data` / `set_data`) and for the
+operations that re-seat or grow the flow data under a stream's phase views (`unlink`, `link_with`, `copy_like`,
+`mix_from` with phase growth, `_reset_thermo` to an equal-order package, `proxy`), generator of operation
+histories over a small universe of streams, and the property oracle evaluated on the real objects.
 The Lean model is lean/ThermoVerif/Model/Phases.lean, the driver lean/Driver/C12.lean.
 
-Protocol (one op per line; the answer is the canonical state of the stream and of every phase view
-handed out so far, prefixed by `err=<Class> ` when the op raised):
+Protocol (one op per line; streams are numbered in creation order; the answer is the canonical state of every
+stream and of every phase view handed out so far, prefixed by `err=<Class> ` when the op raised):
 
-  new S <phase> <T> <P> <f0,f1,f2>                 a single-phase Stream
+  new S <phase> <T> <P> <f0,f1,f2>                 a single-phase Stream            (becomes stream #next)
   new M <p1,p2,..> <T> <P> <p:f0,f1,f2;...|->       a MultiStream
-  sphases <p1,p2,..>      stream.phases = (...)      sphase <letters|->   stream.phase = '...'
-  reduce | asstream | vle | lle | sle | empty        the method / accessor of that name
-  view <p>                stream[p]                  (registers a handle h<k> when a new view object appears)
-  wview <k> <i> <x>       h<k>.imol[chem_i] = x      wpar <p|-> <i> <x>   stream.imol[p, chem_i] = x
-  wT <x> | wP <x>         stream.T / stream.P = x    wvT <k> <x> | wvP <k> <x>   the same through a view
-  vphase <k> <p>          h<k>.phase = p             (the phase of a view is locked)
-  save                    snapshots.append(stream.get_data())
-  restore <k>             stream.set_data(snapshots[k])
+  sphases <k> <p1,p2,..>  s_k.phases = (...)         sphase <k> <letters|->   s_k.phase = '...'
+  reduce|asstream|vle|lle|sle|empty <k>              the method / accessor of that name
+  view <k> <p>            s_k[p]                     (registers a handle h<n> when a new view object appears)
+  wview <h> <i> <x>       h.imol[chem_i] = x         wpar <k> <p|-> <i> <x>   s_k.imol[p, chem_i] = x
+  wT|wP <k> <x>           s_k.T / s_k.P = x          wvT|wvP <h> <x>          the same through a view
+  vphase <h> <p>          h.phase = p                (the phase of a view is locked)
+  save <k>                snapshots.append(s_k.get_data())
+  restore <k> <n>         s_k.set_data(snapshots[n])
+  unlink <k>              s_k.unlink()
+  link <k> <j> <f> <t>    s_k.link_with(s_j, flow=f, TP=t)
+  copylike <k> <j>        s_k.copy_like(s_j)
+  mix <k> <j1,j2,..>      s_k.mix_from([s_j1, ...], energy_balance=False)
+  thermo <k> <t>          s_k._reset_thermo(package t)    (packages 0,1,2: same chemicals, same order)
+  proxy <k>               s_k.proxy()                (becomes stream #next)
 
 Property oracle (real objects only), failure signatures:
   <op>/totals-changed, <op>/TP-changed   a conversion changed a per-chemical total / T / P
@@ -31,9 +39,18 @@ Property oracle (real objects only), failure signatures:
   raises-in-precondition:<S|M>           a conversion raised although its target contains every non-empty phase
   failed-conversion-corrupts             a conversion raised and changed the stream (or left it unusable)
   stale-view                             a view in `_streams` is not live (probe: write through one side, read through
-                                         the other, T/P likewise; every probe is undone)
+                                         the other, T/P likewise, molar and mass accessor; every probe is undone)
+  stale-view/shared-dict                 the same for a stream whose `_streams` dict is shared with another stream
+                                         (a proxy after one of the two re-seated its data)
   restore/raises, restore/mismatch       set_data of a snapshot raised / did not reproduce what get_data saw
-  <op>/contents-changed                  view, save, T/P writes or a (refused) view.phase assignment changed flows/phases
+  <op>/contents-changed                  view, save, T/P writes, a (refused) view.phase assignment, unlink or
+                                         _reset_thermo changed flows/phases (unlink, thermo: also T, P)
+  <op>/other-stream-changed              a conversion, unlink, _reset_thermo or proxy changed a stream that shares
+                                         nothing with the one operated on
+  unlink/still-shared                    after unlink the stream still shares row objects or its thermal condition
+  link/mismatch, copylike/mismatch       the receiver does not show the linked / copied flows (by phase), T, P
+  mix/totals                             the receiver's totals are not the sum of the inlets' totals
+  proxy/mismatch                         the proxy does not show the original's contents
 """
 from __future__ import annotations
 import random, warnings
@@ -42,19 +59,24 @@ from harness.core import Case, ImplResult, frac
 
 PID = 'C12'
 LEAN_MODULES = ['ThermoVerif.Props.C12']
-RULE = ('histories of up to 30 phase-representation operations (phases/phase setters, reduce_phases, as_stream, '
-        'vle/lle/sle accessors, phase views, writes through views and parent, T/P writes, get_data/set_data) on one '
-        'real Stream/MultiStream over (Water, Ethanol, Octane) with dyadic flows over subsets of the phases '
-        's,l,g,S,L; generated adaptively on the real object so that ~85% of conversions target a phase set that '
-        'contains every non-empty phase up to case; a case is non-trivial when at least one conversion changed '
-        'type(stream) or its phase tuple while material was present; distinct = distinct op sequences')
+RULE = ('histories of up to 30 operations (phases/phase setters, reduce_phases, as_stream, vle/lle/sle accessors, '
+        'phase views, writes through views and parents, T/P writes, get_data/set_data, unlink, link_with, copy_like, '
+        'mix_from, _reset_thermo, proxy) on a universe of 2-5 real Stream/MultiStream objects over '
+        '(Water, Ethanol, Octane) with dyadic flows over subsets of the phases s,l,g,S,L; generated adaptively on '
+        'the real objects so that ~85% of conversions target a phase set that contains every non-empty phase up to '
+        'case; a case is non-trivial when a conversion changed type(stream) or its phase tuple while material was '
+        'present, or a data-re-seating operation ran on a MultiStream that had cached views; distinct = distinct op '
+        'sequences')
 ASSUMPTIONS = [
     'a SparseVector row is modelled by its dense image (a list of rationals); Python object identity by store ids',
     'flows are non-negative dyadic rationals, so every sum the code performs is exact in binary64 (exact comparison)',
     'the equilibrium solver objects returned by vle/lle/sle are not modelled (only the phase-set extension of the accessor)',
-    'the model describes the behaviour WITH the patches fixes_proposed/C12-1..3 applied (stale views, set_data, '
-    'Stream.phases setter); on a tree without them the check reports these as violations',
-    'one stream per history (links/copies are C13); invalid phase letters and empty phase sets are not generated',
+    'link_with is modelled between MultiStreams (over the same phase tuple when flows are linked); outside the model '
+    '(never generated): linking single-phase streams or a stream that has a proxy, growing the phases of an indexer '
+    'whose rows are linked to another indexer or under a cached case-alias key, _reset_thermo of a stream that has '
+    'a proxy, copy_like/mix_from between streams that share rows but belong to different packages',
+    'property packages 0,1,2 hold the same chemicals in the same order; mix_from is used with energy_balance=False',
+    'invalid phase letters and empty phase sets are not generated',
 ]
 TRUSTED = ['Lean 4.33 kernel', 'correspondence harness harness/props/c12.py + Driver/C12.lean',
            'the adapter reads the private attributes _streams, _imol, _thermal_condition for identity observations only',
@@ -62,10 +84,12 @@ TRUSTED = ['Lean 4.33 kernel', 'correspondence harness harness/props/c12.py + Dr
 EXHAUSTIVE = {'quick': False, 'thorough': False}
 
 tmo = None
+THERMOS = []
 CHEMS = ['Water', 'Ethanol', 'Octane']
 N = len(CHEMS)
 PHASES = ['L', 'S', 'g', 'l', 's']          # ASCII order = phase_tuple order
 CONVERSIONS = ('sphases', 'sphase', 'reduce', 'asstream', 'vle', 'lle', 'sle')
+RESEATING = ('unlink', 'link', 'copylike', 'mix', 'thermo', 'proxy')
 
 
 def setup():
@@ -74,11 +98,13 @@ def setup():
     tmo = tmo_
     warnings.simplefilter('ignore')
     tmo.settings.set_thermo(CHEMS, cache=True)
+    th0 = tmo.settings.get_thermo()
+    THERMOS[:] = [th0, tmo.Thermo(tmo.Chemicals(CHEMS)), tmo.Thermo(tmo.Chemicals(CHEMS))]
 
 
 def budget(tier):
     return {'quick': dict(seconds=45, cases=2400, shrink_s=15, search_s=10),
-            'thorough': dict(seconds=420, cases=160000, shrink_s=40, search_s=30)}[tier]
+            'thorough': dict(seconds=420, cases=120000, shrink_s=40, search_s=30)}[tier]
 
 
 def swap(p):
@@ -89,6 +115,12 @@ def swap(p):
 def alt(p):
     """a valid label that may stand in for p in a generated target"""
     return p if p == 'g' else swap(p)
+
+
+def dest(labels, p):
+    if p in labels: return p
+    q = swap(p)
+    return q if q in labels else None
 
 
 def fr(x):
@@ -107,76 +139,109 @@ class Corrupt(Exception):
     pass
 
 
+def row_objects(s):
+    d = s._imol.data
+    return list(d.rows) if hasattr(d, 'rows') else [d]
+
+
 class Universe:
-    """The real objects of one case: one stream, the phase views handed out, the snapshots."""
+    """The real objects of one case: the streams, the phase views handed out, the snapshots."""
 
     def __init__(self):
-        self.s = None
+        self.S = []
         self.handles = []
         self.snaps = []
         self.snap_obs = []
 
     # ---- observation (real objects only) ---------------------------------------
-    def kind(self):
-        t = type(self.s)
+    def kind(self, k):
+        t = type(self.S[k])
         if t is tmo.Stream: return 'S'
         if t is tmo.MultiStream: return 'M'
         return '?'
 
-    def obs(self):
+    def obs(self, k):
         """(kind, phases, {phase: [Fraction]*N}, T, P) through the public API."""
-        s = self.s
-        k = self.kind()
+        s = self.S[k]
+        kd = self.kind(k)
         phases = tuple(s.phases)
         rows = {}
-        if k == 'M':
+        if kd == 'M':
             for p in phases:
                 rows[p] = [Fraction(float(s.imol[p, c])) for c in CHEMS]
         else:
             rows[phases[0]] = [Fraction(float(s.imol[c])) for c in CHEMS]
-        return (k, phases, rows, Fraction(float(s.T)), Fraction(float(s.P)))
+        return (kd, phases, rows, Fraction(float(s.T)), Fraction(float(s.P)))
+
+    def obs_all(self):
+        return [self.obs(k) for k in range(len(self.S))]
+
+    def shares(self, j, k, views=True):
+        """stream j shares a row object, the thermal condition, the indexer or (views) the view dict with stream k"""
+        a, b = self.S[j], self.S[k]
+        if a._imol is b._imol or a._thermal_condition is b._thermal_condition: return True
+        da, db = getattr(a, '_streams', None), getattr(b, '_streams', None)
+        if views and da is not None and da is db: return True
+        rb = row_objects(b)
+        return any(x is y for x in row_objects(a) for y in rb)
 
     def show(self):
         try:
-            k, phases, rows, T, P = self.obs()
-            s = self.s
-            out = [f'k={k}', 'ph=' + ','.join(phases), 'rows=' + ';'.join(rowstr(rows[p]) for p in phases),
-                   'T=' + frac(T), 'P=' + frac(P)]
-            cache = []
-            if k == 'M':
-                for p in sorted(s._streams):
-                    v = s._streams[p]
-                    idx = [i for i, h in enumerate(self.handles) if h is v]
-                    cache.append(f'{p}>h{idx[0]}' if idx else f'{p}>?')
-            out.append('cache=' + ','.join(cache))
+            S = self.S
+            parts = []
+            for k, s in enumerate(S):
+                kd, phases, rows, T, P = self.obs(k)
+                def cls(f):
+                    for j in range(len(S)):
+                        if f(S[j]): return str(j)
+                    return '-'
+                rk = row_objects(s)
+                def same_rows(o):
+                    ro = row_objects(o)
+                    return len(ro) == len(rk) and all(x is y for x, y in zip(ro, rk))
+                dk = getattr(s, '_streams', None)
+                ids = '/'.join([cls(lambda o: o._imol is s._imol), cls(same_rows),
+                                cls(lambda o: o._thermal_condition is s._thermal_condition),
+                                cls(lambda o: (o is s) if dk is None else (getattr(o, '_streams', None) is dk))])
+                cache = []
+                if kd == 'M':
+                    for p in sorted(s._streams):
+                        v = s._streams[p]
+                        idx = [i for i, h in enumerate(self.handles) if h is v]
+                        cache.append(f'{p}>h{idx[0]}' if idx else f'{p}>?')
+                parts.append(f's{k}:k={kd} ph=' + ','.join(phases) + ' rows=' + ';'.join(rowstr(rows[p]) for p in phases)
+                             + f' T={frac(T)} P={frac(P)} id={ids} cache=' + ','.join(cache))
             hs = []
-            prow = list(s._imol.data.rows) if k == 'M' else [s._imol.data]
             for i, h in enumerate(self.handles):
                 at = '-'
-                for p, r in zip(phases, prow):
-                    if h._imol.data is r: at = p; break
-                tc = 1 if h._thermal_condition is s._thermal_condition else 0
+                for k, s in enumerate(S):
+                    for p, r in zip(tuple(s.phases), row_objects(s)):
+                        if h._imol.data is r: at = f'{k}.{p}'; break
+                    if at != '-': break
+                tc = '-'
+                for k, s in enumerate(S):
+                    if h._thermal_condition is s._thermal_condition: tc = str(k); break
                 vals = [Fraction(float(h.imol[c])) for c in CHEMS]
                 hs.append(f'h{i}:{h.phase}@{at}:tc{tc}:{rowstr(vals)}')
-            out.append('hs=' + '|'.join(hs))
-            return ' '.join(out)
+            parts.append('hs=' + '|'.join(hs))
+            return ' || '.join(parts)
         except Exception as e:
             raise Corrupt(f'{type(e).__name__}: {e}')
 
-    def nonempty(self, o=None):
-        k, phases, rows, T, P = o or self.obs()
+    def nonempty(self, o):
+        kd, phases, rows, T, P = o
         return [p for p in phases if any(rows[p])]
 
     # ---- operations --------------------------------------------------------------
     def apply(self, line):
         t = line.split(' ')
         op = t[0]
-        s = self.s
+        S = self.S
         if op == 'new':
             T, P = float(Fraction(t[3])), float(Fraction(t[4]))
             if t[1] == 'S':
                 fl = [float(Fraction(x)) for x in t[5].split(',')]
-                self.s = tmo.Stream(None, phase=t[2], T=T, P=P, **{c: v for c, v in zip(CHEMS, fl)})
+                S.append(tmo.Stream(None, phase=t[2], T=T, P=P, thermo=THERMOS[0], **{c: v for c, v in zip(CHEMS, fl)}))
             else:
                 phases = tuple(t[2].split(','))
                 kw = {}
@@ -184,11 +249,20 @@ class Universe:
                     for part in t[5].split(';'):
                         p, vals = part.split(':')
                         kw[p] = [(c, float(Fraction(v))) for c, v in zip(CHEMS, vals.split(','))]
-                self.s = tmo.MultiStream(None, phases=phases, T=T, P=P, **kw)
-        elif op == 'sphases':
-            s.phases = tuple(t[1].split(','))
+                S.append(tmo.MultiStream(None, phases=phases, T=T, P=P, thermo=THERMOS[0], **kw))
+            return
+        if op in ('wview', 'wvT', 'wvP', 'vphase'):
+            h = self.handles[int(t[1])]
+            if op == 'wview': h.imol[CHEMS[int(t[2])]] = float(Fraction(t[3]))
+            elif op == 'wvT': h.T = float(Fraction(t[2]))
+            elif op == 'wvP': h.P = float(Fraction(t[2]))
+            else: h.phase = t[2]
+            return
+        s = S[int(t[1])]
+        if op == 'sphases':
+            s.phases = tuple(t[2].split(','))
         elif op == 'sphase':
-            s.phase = '' if t[1] == '-' else t[1]
+            s.phase = '' if t[2] == '-' else t[2]
         elif op == 'reduce':
             s.reduce_phases()
         elif op == 'asstream':
@@ -202,31 +276,35 @@ class Universe:
         elif op == 'empty':
             s.empty()
         elif op == 'view':
-            v = s[t[1]]
-            if not any(h is v for h in self.handles) and v is not s:
+            v = s[t[2]]
+            if not any(h is v for h in self.handles) and not any(v is x for x in S):
                 self.handles.append(v)
-        elif op == 'wview':
-            self.handles[int(t[1])].imol[CHEMS[int(t[2])]] = float(Fraction(t[3]))
         elif op == 'wpar':
-            if t[1] == '-':
-                s.imol[CHEMS[int(t[2])]] = float(Fraction(t[3]))
+            if t[2] == '-':
+                s.imol[CHEMS[int(t[3])]] = float(Fraction(t[4]))
             else:
-                s.imol[t[1], CHEMS[int(t[2])]] = float(Fraction(t[3]))
+                s.imol[t[2], CHEMS[int(t[3])]] = float(Fraction(t[4]))
         elif op == 'wT':
-            s.T = float(Fraction(t[1]))
+            s.T = float(Fraction(t[2]))
         elif op == 'wP':
-            s.P = float(Fraction(t[1]))
-        elif op == 'wvT':
-            self.handles[int(t[1])].T = float(Fraction(t[2]))
-        elif op == 'wvP':
-            self.handles[int(t[1])].P = float(Fraction(t[2]))
-        elif op == 'vphase':
-            self.handles[int(t[1])].phase = t[2]
+            s.P = float(Fraction(t[2]))
         elif op == 'save':
             self.snaps.append(s.get_data())
-            self.snap_obs.append(self.obs())
+            self.snap_obs.append(self.obs(int(t[1])))
         elif op == 'restore':
-            s.set_data(self.snaps[int(t[1])])
+            s.set_data(self.snaps[int(t[2])])
+        elif op == 'unlink':
+            s.unlink()
+        elif op == 'link':
+            s.link_with(S[int(t[2])], flow=(t[3] == '1'), TP=(t[4] == '1'))
+        elif op == 'copylike':
+            s.copy_like(S[int(t[2])])
+        elif op == 'mix':
+            s.mix_from([S[int(j)] for j in t[2].split(',')], energy_balance=False)
+        elif op == 'thermo':
+            s._reset_thermo(THERMOS[int(t[2])])
+        elif op == 'proxy':
+            S.append(s.proxy())
         else:
             raise ValueError('unknown op ' + line)
 
@@ -236,16 +314,16 @@ class Universe:
         t = line.split(' ')
         op = t[0]
         k, phases = pre[0], pre[1]
-        if op == 'sphases': return set(t[1].split(','))
+        if op == 'sphases': return set(t[2].split(','))
         if op == 'sphase':
             if k == 'S': return None                 # relabelling a single-phase stream: a deliberate phase change
-            return set('l' if t[1] == '-' else t[1])
+            return set('l' if t[2] == '-' else t[2])
         if op in ('vle', 'lle', 'sle'):
             ext = {'vle': ('g', 'l'), 'lle': ('L', 'l'), 'sle': ('s', 'l')}[op]
             return set(ext) | (set(phases) if k == 'M' else set())
         return None
 
-    def judge_conversion(self, line, pre, post, err):
+    def judge_conversion(self, line, k, pre, post, err):
         """Failures of the conversion clauses of C12 for one op; `post` is None when the object is unusable."""
         op = line.split(' ')[0]
         out = []
@@ -253,10 +331,11 @@ class Universe:
         ne0 = [p for p in ph0 if any(rows0[p])]
         target = self.target_of(line, pre)
         in_pre = target is not None and all((p in target) or (swap(p) in target) for p in ne0)
+        s = self.S[k]
         if post is None:
             out.append(('failed-conversion-corrupts',
-                        f'`{line}` raised {err} and left the stream unusable (type {type(self.s).__name__}, '
-                        f'indexer {type(self.s._imol).__name__})'))
+                        f'`{line}` raised {err} and left the stream unusable (type {type(s).__name__}, '
+                        f'indexer {type(s._imol).__name__})'))
             if in_pre:
                 out.append((f'raises-in-precondition:{k0}',
                             f'`{line}` raised {err} although the target {sorted(target)} contains every non-empty phase {ne0}'))
@@ -293,10 +372,56 @@ class Universe:
             out.append((f'{op}/wrong-phase-set', f'`{line}`: phases afterwards are {ph1}'))
         return out
 
-    def probe_views(self):
+    def judge_reseat(self, line, pre_all, post_all, err):
+        """Clauses for unlink / link / copylike / mix / thermo / proxy (only when the op did not raise)."""
+        t = line.split(' ')
+        op, k = t[0], int(t[1])
+        out = []
+        if err is not None or post_all is None: return out
+        pre, post = pre_all[k], post_all[k]
+        def totals(o): return [sum(o[2][p][i] for p in o[1]) for i in range(N)]
+        def gathered(labels, srcs):
+            want = {q: [Fraction(0)] * N for q in labels}
+            for p, vals in srcs:
+                q = dest(labels, p)
+                if q is None:
+                    if any(vals): return None
+                    continue
+                want[q] = [a + b for a, b in zip(want[q], vals)]
+            return want
+        if op in ('unlink', 'thermo'):
+            if pre != post:
+                out.append((f'{op}/contents-changed', f'`{line}` changed the stream: {pre} -> {post}'))
+            if op == 'unlink' and any(self.shares(j, k, views=False) for j in range(len(self.S)) if j != k):
+                out.append(('unlink/still-shared', f'after `{line}` the stream still shares data with another stream'))
+        elif op == 'link':
+            j = int(t[2])
+            src = pre_all[j]
+            exp_rows = src[2] if t[3] == '1' else pre[2]
+            exp_TP = (src[3], src[4]) if t[4] == '1' else (pre[3], pre[4])
+            if post[1] != pre[1] or post[2] != exp_rows or (post[3], post[4]) != exp_TP:
+                out.append(('link/mismatch', f'after `{line}` the receiver shows {post} (source {src}, before {pre})'))
+        elif op == 'copylike':
+            src = pre_all[int(t[2])]
+            want = gathered(post[1], [(p, src[2][p]) for p in src[1]])
+            if want is None or want != post[2] or (post[3], post[4]) != (src[3], src[4]):
+                out.append(('copylike/mismatch', f'after `{line}` the receiver shows {post} where the source was {src}'))
+        elif op == 'mix':
+            js = [int(x) for x in t[2].split(',')]
+            tot = [sum(totals(pre_all[j])[i] for j in js) for i in range(N)]
+            if totals(post) != tot:
+                out.append(('mix/totals', f'after `{line}` the receiver holds {totals(post)}, the inlets held {tot}'))
+            if post[3] != pre[3]:
+                out.append(('mix/TP-changed', f'`{line}` (energy_balance=False) changed T'))
+        elif op == 'proxy':
+            if post_all[-1] != pre or post != pre:
+                out.append(('proxy/mismatch', f'after `{line}` the proxy shows {post_all[-1]}, the original {post} (before {pre})'))
+        return out
+
+    def probe_views(self, k):
         """Every cached phase view must be live: same numbers as the parent's row for that phase, writes through
         either side visible on the other, shared T and P.  Probes write and undo (exact)."""
-        s = self.s
+        s = self.S[k]
         if type(s) is not tmo.MultiStream: return None
         for p in sorted(s._streams):
             v = s._streams[p]
@@ -345,23 +470,37 @@ class Universe:
                 pass
         return None
 
+    def dict_shared(self, k):
+        d = getattr(self.S[k], '_streams', None)
+        return d is not None and any(getattr(o, '_streams', None) is d for j, o in enumerate(self.S) if j != k)
+
 
 def opkind(line):
     return line.split(' ')[0]
 
 
+def optarget(line):
+    t = line.split(' ')
+    if t[0] in ('new', 'wview', 'wvT', 'wvP', 'vphase'): return None
+    try: return int(t[1])
+    except Exception: return None
+
+
 def run_ops(ops):
     U = Universe()
     outs, failures, dead = [], [], False
-    converted = False
+    interesting = False
     stale_reported = False
     for i, line in enumerate(ops):
         if dead:
             outs.append('dead'); continue
         op = opkind(line)
-        if U.s is None and op != 'new':
-            outs.append('err=NoStream'); continue
-        pre = U.obs() if U.s is not None else None
+        k = optarget(line)
+        valid_k = k is not None and 0 <= k < len(U.S)
+        pre_all = U.obs_all()
+        pre = pre_all[k] if valid_k else None
+        apart = [j for j in range(len(U.S)) if valid_k and j != k and not U.shares(j, k)]
+        had_views = valid_k and type(U.S[k]) is tmo.MultiStream and len(U.S[k]._streams) > 0
         err = None
         try:
             U.apply(line)
@@ -369,49 +508,62 @@ def run_ops(ops):
             err = ERRMAP.get(type(e).__name__, type(e).__name__)
         try:
             state = U.show()
-            post = U.obs()
-        except Corrupt as e:
-            state, post = None, None
+            post_all = U.obs_all()
+        except Corrupt:
+            state, post_all = None, None
+        post = post_all[k] if (post_all is not None and valid_k) else None
         def fail(sig, what):
             failures.append({'signature': sig, 'op_index': i, 'what': what})
-        if op in CONVERSIONS:
-            for sig, what in U.judge_conversion(line, pre, post, err):
+        if valid_k and op in CONVERSIONS:
+            for sig, what in U.judge_conversion(line, k, pre, post, err):
                 fail(sig, what)
-        elif op == 'restore':
-            k = int(line.split(' ')[1])
-            if err is not None or post is None:
-                fail('restore/raises', f'set_data of snapshot {k} raised {err}: stream had phases {pre[1]} with non-empty '
-                                       f'{U.nonempty(pre)}, snapshot has phases {U.snap_obs[k][1]}')
-            elif post != U.snap_obs[k]:
-                fail('restore/mismatch', f'set_data(snapshot {k}) gave {post} where get_data saw {U.snap_obs[k]}')
-        elif op in ('view', 'save', 'wT', 'wP', 'wvT', 'wvP', 'vphase') and post is not None and pre is not None:
-            # none of these may change the contents
+        elif valid_k and op == 'restore':
+            n = int(line.split(' ')[2])
+            if n < len(U.snap_obs):
+                if err is not None or post is None:
+                    fail('restore/raises', f'set_data of snapshot {n} raised {err}: stream had phases {pre[1]} with non-empty '
+                                           f'{U.nonempty(pre)}, snapshot has phases {U.snap_obs[n][1]}')
+                elif post != U.snap_obs[n]:
+                    fail('restore/mismatch', f'set_data(snapshot {n}) gave {post} where get_data saw {U.snap_obs[n]}')
+        elif valid_k and op in RESEATING:
+            for sig, what in U.judge_reseat(line, pre_all, post_all, err):
+                fail(sig, what)
+        elif op in ('view', 'save', 'wT', 'wP') and post is not None and pre is not None:
             if (pre[0], pre[1], pre[2]) != (post[0], post[1], post[2]):
                 fail(f'{op}/contents-changed', f'`{line}` changed the flows or phases')
-        if post is None:
+        if post_all is not None and valid_k and op in CONVERSIONS + ('unlink', 'thermo', 'proxy'):
+            for j in apart:
+                if pre_all[j] != post_all[j]:
+                    fail(f'{op}/other-stream-changed', f'`{line}` changed stream {j}, which shares nothing with stream {k}')
+                    break
+        if post_all is None:
             outs.append(f'err={err} corrupt')
             dead = True
             continue
         outs.append((f'err={err} ' if err else '') + state)
         if pre is not None and op in CONVERSIONS and (pre[0], pre[1]) != (post[0], post[1]) and U.nonempty(post):
-            converted = True
+            interesting = True
+        if op in RESEATING and err is None and had_views:
+            interesting = True
         if not stale_reported:
-            w = U.probe_views()
-            if w:
-                stale_reported = True
-                fail('stale-view', f'after `{line}`: {w}')
-    return U, outs, failures, converted
+            for j in range(len(U.S)):
+                w = U.probe_views(j)
+                if w:
+                    stale_reported = True
+                    fail('stale-view/shared-dict' if U.dict_shared(j) else 'stale-view', f'after `{line}`, stream {j}: {w}')
+                    break
+    return U, outs, failures, interesting
 
 
 def run_impl(case: Case) -> ImplResult:
-    U, outs, failures, converted = run_ops(case.ops)
+    U, outs, failures, interesting = run_ops(case.ops)
     tags = sorted({opkind(l) for l in case.ops})
     tags += sorted({'err:' + o.split(' ')[0][4:] for o in outs if o.startswith('err=')})
     for l, o in zip(case.ops, outs):
         if opkind(l) in CONVERSIONS and not o.startswith('err=') and o != 'dead':
-            tags.append('conv:' + opkind(l) + ':' + o.split(' ')[0][2:])
+            tags.append('conv:' + opkind(l))
     return ImplResult(model_in=list(case.ops), outs=outs, failures=failures, tags=tags,
-                      nontrivial=(tuple(case.ops) if converted else None))
+                      nontrivial=(tuple(case.ops) if interesting else None))
 
 
 # --------------------------------------------------------------------------
@@ -432,14 +584,14 @@ def gen_P(rng):
     return str(rng.randrange(50, 400) * 1000)
 
 
-def gen_new(rng):
+def gen_new(rng, multi=None):
     T, P = gen_T(rng), gen_P(rng)
-    if rng.random() < 0.4:
+    if multi is False or (multi is None and rng.random() < 0.35):
         p = rng.choice(PHASES if rng.random() < 0.5 else ['l', 'g', 'l', 's'])
         fl = [dy(rng) for _ in range(N)]
         return f'new S {p} {T} {P} ' + ','.join(fr(x) for x in fl)
     m = rng.choice([2, 2, 3, 3, 4, 5])
-    phases = sorted(rng.sample(PHASES, m))
+    phases = sorted(rng.sample(PHASES, m)) if rng.random() < 0.6 else rng.choice([['g', 'l'], ['g', 'l', 's'], ['L', 'g', 'l']])
     parts = []
     for p in phases:
         if rng.random() < 0.55:
@@ -447,72 +599,172 @@ def gen_new(rng):
     return f'new M {",".join(phases)} {T} {P} ' + (';'.join(parts) if parts else '-')
 
 
-def gen_target(rng, U, valid=0.85):
+def gen_target(rng, U, k, valid=0.85):
     """a target phase set; mostly one that contains every non-empty phase up to case"""
-    ne = U.nonempty()
+    ne = U.nonempty(U.obs(k))
     if rng.random() < valid:
         base = set()
         for p in ne:
             base.add(p if rng.random() < 0.7 else alt(p))
         extra = [p for p in PHASES if p not in base]
         rng.shuffle(extra)
-        k = rng.choice([0, 1, 1, 2, 2, 3])
-        base |= set(extra[:k])
+        n = rng.choice([0, 1, 1, 2, 2, 3])
+        base |= set(extra[:n])
         if not base: base.add(rng.choice(PHASES))
         return sorted(base)
     return sorted(rng.sample(PHASES, rng.choice([1, 2, 2, 3])))
 
 
+def keys_resolve(s):
+    d = getattr(s, '_streams', None)
+    if not d: return True
+    if type(s) is not tmo.MultiStream: return False
+    return all(p in s._imol._phase_indexer for p in d)
+
+
+def rows_shared(U, k):
+    s = U.S[k]
+    rk = row_objects(s)
+    return any(o._imol is not s._imol and any(x is y for x in row_objects(o) for y in rk)
+               for j, o in enumerate(U.S) if j != k)
+
+
+def compat(a, b):
+    return ''.join(x.lower() for x in a) == ''.join(x.lower() for x in b)
+
+
+def foreign_share(U, k, j):
+    a, b = U.S[k], U.S[j]
+    if a._thermo is b._thermo: return False
+    rk = row_objects(a)
+    return any(x is y for x in row_objects(b) for y in rk)
+
+
+def alias_key_clash(U, s, more):
+    return any(p not in s.phases and p in more
+               for o in U.S if o._imol is s._imol for p in (getattr(o, '_streams', None) or ()))
+
+
+def in_model(U, line):
+    """the guards of the model (`outOfModel`), evaluated on the real objects"""
+    t = line.split(' ')
+    op = t[0]
+    S = U.S
+    if op == 'unlink':
+        return keys_resolve(S[int(t[1])])
+    if op == 'thermo':
+        s = S[int(t[1])]
+        if THERMOS[int(t[2])] is s._thermo: return True
+        return keys_resolve(s) and not any(o._imol is s._imol for o in S if o is not s)
+    if op == 'link':
+        a, b = S[int(t[1])], S[int(t[2])]
+        if type(a) is not type(b): return True                      # raises RuntimeError, mirrored
+        return (type(a) is tmo.MultiStream and (t[3] == '0' or a.phases == b.phases)
+                and not any(o._imol is a._imol for o in S if o is not a))
+    if op == 'copylike':
+        k, j = int(t[1]), int(t[2])
+        a, b = S[k], S[j]
+        if a._imol is b._imol or type(a) is not tmo.MultiStream: return True
+        if foreign_share(U, k, j): return False
+        if type(b) is tmo.MultiStream:
+            need = a.phases != b.phases and not compat(a.phases, b.phases)
+        else:
+            need = b.phase not in a._imol._phase_indexer
+        return not (need and (rows_shared(U, k) or alias_key_clash(U, a, b.phases)))
+    if op == 'mix':
+        k = int(t[1])
+        a = S[k]
+        livej = [int(j) for j in t[2].split(',') if not S[int(j)].isempty()]
+        if any(foreign_share(U, k, j) for j in livej): return False
+        if type(a) is not tmo.MultiStream: return True
+        other = {p for j in livej for p in S[j].phases}
+        need = any(p not in a._imol._phase_indexer for p in other)
+        return not (need and (rows_shared(U, k) or alias_key_clash(U, a, other)))
+    return True
+
+
 def gen_op(rng, U):
-    k = U.kind()
-    o = U.obs()
+    nS = len(U.S)
+    # prefer multi-phase streams that have views
+    weights = [3 if (type(s) is tmo.MultiStream and s._streams) else (2 if type(s) is tmo.MultiStream else 1) for s in U.S]
+    k = rng.choices(range(nS), weights)[0]
+    s = U.S[k]
+    kd = U.kind(k)
+    o = U.obs(k)
     phases = o[1]
+    multis = [j for j in range(nS) if U.kind(j) == 'M']
     kinds = ['sphases', 'sphase', 'reduce', 'asstream', 'vle', 'lle', 'sle', 'view', 'wview', 'wpar',
-             'wT', 'wP', 'wvT', 'wvP', 'save', 'restore', 'empty', 'vphase']
-    w = [16, 6, 5, 4, 4, 4, 4, 14 if k == 'M' else 0, 8 if U.handles else 0, 12,
-         3, 2, 3 if U.handles else 0, 1 if U.handles else 0, 6, 8 if U.snaps else 0, 1, 1 if U.handles else 0]
+             'wT', 'wP', 'wvT', 'wvP', 'save', 'restore', 'empty', 'vphase',
+             'unlink', 'link', 'copylike', 'mix', 'thermo', 'proxy', 'new']
+    hv = 1 if U.handles else 0
+    w = [14, 5, 4, 3, 3, 3, 3, 16 if kd == 'M' else 0, 8 * hv, 12,
+         3, 2, 3 * hv, 1 * hv, 5, 7 if U.snaps else 0, 1, 1 * hv,
+         6, 7 if len(multis) >= 2 and kd == 'M' else 0, 8, 7, 4, (2 if nS < 5 else 0), (1 if nS < 4 else 0)]
     op = rng.choices(kinds, w)[0]
+    if op == 'new': return gen_new(rng)
     if op == 'sphases':
-        return 'sphases ' + ','.join(gen_target(rng, U))
+        return f'sphases {k} ' + ','.join(gen_target(rng, U, k))
     if op == 'sphase':
-        if k == 'S':
-            return 'sphase ' + rng.choice(PHASES)
+        if kd == 'S':
+            return f'sphase {k} ' + rng.choice(PHASES)
         r = rng.random()
-        if r < 0.1: return 'sphase -'
+        if r < 0.1: return f'sphase {k} -'
         if r < 0.5:
-            ne = U.nonempty()
-            if len(ne) == 1: return 'sphase ' + (ne[0] if rng.random() < 0.7 else alt(ne[0]))
-            return 'sphase ' + rng.choice(PHASES)
-        return 'sphase ' + ''.join(gen_target(rng, U))
-    if op in ('reduce', 'asstream', 'vle', 'lle', 'sle', 'empty', 'save'):
-        return op
+            ne = U.nonempty(o)
+            if len(ne) == 1: return f'sphase {k} ' + (ne[0] if rng.random() < 0.7 else alt(ne[0]))
+            return f'sphase {k} ' + rng.choice(PHASES)
+        return f'sphase {k} ' + ''.join(gen_target(rng, U, k))
+    if op in ('reduce', 'asstream', 'vle', 'lle', 'sle', 'empty', 'save', 'unlink', 'proxy'):
+        return f'{op} {k}'
     if op == 'view':
-        if rng.random() < 0.8: return 'view ' + rng.choice(phases)
-        return 'view ' + rng.choice(PHASES)
+        if rng.random() < 0.8: return f'view {k} ' + rng.choice(phases)
+        return f'view {k} ' + rng.choice(PHASES)
     if op == 'wview':
         return f'wview {rng.randrange(len(U.handles))} {rng.randrange(N)} {fr(dy(rng, 0.2))}'
     if op == 'wpar':
-        if k == 'S': return f'wpar - {rng.randrange(N)} {fr(dy(rng, 0.2))}'
+        if kd == 'S': return f'wpar {k} - {rng.randrange(N)} {fr(dy(rng, 0.2))}'
         p = rng.choice(phases) if rng.random() < 0.9 else rng.choice(PHASES)
-        return f'wpar {p} {rng.randrange(N)} {fr(dy(rng, 0.25))}'
-    if op == 'wT': return 'wT ' + gen_T(rng)
-    if op == 'wP': return 'wP ' + gen_P(rng)
+        return f'wpar {k} {p} {rng.randrange(N)} {fr(dy(rng, 0.25))}'
+    if op == 'wT': return f'wT {k} ' + gen_T(rng)
+    if op == 'wP': return f'wP {k} ' + gen_P(rng)
     if op == 'wvT': return f'wvT {rng.randrange(len(U.handles))} {gen_T(rng)}'
     if op == 'wvP': return f'wvP {rng.randrange(len(U.handles))} {gen_P(rng)}'
-    if op == 'restore': return f'restore {rng.randrange(len(U.snaps))}'
+    if op == 'restore': return f'restore {k} {rng.randrange(len(U.snaps))}'
     if op == 'vphase':
         h = rng.randrange(len(U.handles))
         return f'vphase {h} {U.handles[h].phase if rng.random() < 0.4 else rng.choice(PHASES)}'
-    return 'save'
+    if op == 'link':
+        cands = [j for j in multis if j != k and U.S[j].phases == s.phases]
+        if not cands:
+            j = rng.choice([j for j in multis if j != k])
+            # make the partner's phases equal first (an empty partner can take any phase set)
+            return f'sphases {j} ' + ','.join(s.phases) if rng.random() < 0.7 else f'empty {j}'
+        j = rng.choice(cands)
+        fl, tp = rng.choice([(1, 1), (1, 1), (1, 0), (0, 1), (0, 0)])
+        return f'link {k} {j} {fl} {tp}'
+    if op == 'copylike':
+        j = rng.randrange(nS)
+        return f'copylike {k} {j}'
+    if op == 'mix':
+        m = rng.choice([1, 2, 2, 3])
+        js = [rng.randrange(nS) for _ in range(m)]
+        return f'mix {k} ' + ','.join(map(str, js))
+    if op == 'thermo':
+        return f'thermo {k} {rng.randrange(3)}'
+    return f'save {k}'
 
 
 def gen_case(rng, length):
     U = Universe()
-    ops = [gen_new(rng)]
-    U.apply(ops[0])
+    ops = []
+    nstreams = rng.choice([2, 2, 3, 3])
+    for n in range(nstreams):
+        ops.append(gen_new(rng, multi=(True if n == 0 else None)))
+        U.apply(ops[-1])
     for _ in range(length):
         try:
             line = gen_op(rng, U)
+            if not in_model(U, line): continue
         except Exception:
             break
         ops.append(line)
@@ -533,11 +785,21 @@ def grid_cases():
     srcs = [f'new S {p} 300 101325 1,2,0' for p in PHASES]
     srcs += [f'new M {a},{b} 300 101325 {a}:1,0,2' for a in PHASES for b in PHASES if a < b]
     srcs += [f'new M {a},{b} 300 101325 {a}:1,0,2;{b}:0,3,1/2' for a in PHASES for b in PHASES if a < b]
-    convs = ['reduce', 'asstream', 'vle', 'lle', 'sle', 'sphases g,l', 'sphases L,l', 'sphases l', 'sphases L,S,g,l,s',
-             'sphase l', 'sphase -', 'sphase gl']
+    convs = ['reduce 0', 'asstream 0', 'vle 0', 'lle 0', 'sle 0', 'sphases 0 g,l', 'sphases 0 L,l', 'sphases 0 l',
+             'sphases 0 L,S,g,l,s', 'sphase 0 l', 'sphase 0 -', 'sphase 0 gl']
     for s in srcs:
         for c in convs:
-            out.append(Case([s, 'save', c, 'restore 0'], {}))
+            out.append(Case([s, 'save 0', c, 'restore 0 0'], {}))
+    # every re-seating operation on a two-phase stream with both views cached, against each kind of partner
+    a = 'new M g,l 300 101325 l:4,0,0;g:0,2,0'
+    partners = ['new M g,l 350 90000 l:1,0,0;g:0,0,5', 'new M L,l,s 360 80000 L:0,1,0;s:0,0,5', 'new S l 320 70000 1,1,1',
+                'new S S 320 70000 0,0,2', 'new M g,l 350 90000 -']
+    reseats = ['unlink 0', 'link 0 1 1 1', 'link 0 1 1 0', 'link 0 1 0 1', 'copylike 0 1', 'copylike 1 0', 'mix 0 1',
+               'mix 0 0,1', 'mix 0 1,1,0', 'thermo 0 1', 'proxy 0', 'mix 1 0']
+    for b in partners:
+        for r in reseats:
+            if r.startswith('link 0 1 1') and b.startswith('new M L,l,s'): continue   # flows linked over other phases: outside the model
+            out.append(Case([a, b, 'view 0 l', 'view 0 g', r, 'wpar 0 l 0 7', 'wT 0 333', 'unlink 0', 'wview 0 1 3'], {}))
     return out
 
 
@@ -550,7 +812,7 @@ def generate(rng, tier, index, nworkers):
     n = max(1, b['cases'] // nworkers)
     for j in range(n):
         r = rng.random()
-        if r < 0.35:
+        if r < 0.3:
             yield gen_case(rng, rng.randrange(2, 8))
         elif r < 0.85:
             yield gen_case(rng, rng.randrange(8, 20))
@@ -561,33 +823,53 @@ def generate(rng, tier, index, nworkers):
 def corpus():
     return [
         # (#7) a phase view obtained before the phase set is extended must stay attached
-        Case(['new M g,l 300 101325 l:4,0,0;g:0,2,0', 'view l', 'sphases g,l,s', 'wpar l 0 7', 'wview 0 1 3']),
-        Case(['new M g,l 300 101325 l:4,0,0', 'view l', 'view g', 'lle', 'wview 0 0 1', 'sle', 'wview 1 2 5']),
+        Case(['new M g,l 300 101325 l:4,0,0;g:0,2,0', 'view 0 l', 'sphases 0 g,l,s', 'wpar 0 l 0 7', 'wview 0 1 3']),
+        Case(['new M g,l 300 101325 l:4,0,0', 'view 0 l', 'view 0 g', 'lle 0', 'wview 0 0 1', 'sle 0', 'wview 1 2 5']),
         # a view under a case-alias key, then the alias becomes a phase of its own
-        Case(['new M g,l 300 101325 l:4,0,0', 'view L', 'wview 0 0 2', 'sphases L,g,l', 'wview 0 0 3']),
+        Case(['new M g,l 300 101325 l:4,0,0', 'view 0 L', 'wview 0 0 2', 'sphases 0 L,g,l', 'wview 0 0 3']),
         # a cached view of a phase that disappears
-        Case(['new M g,l,s 300 101325 l:4,0,0', 'view s', 'view l', 'sphases g,l', 'view s', 'sphases g,l,s', 'view s']),
+        Case(['new M g,l,s 300 101325 l:4,0,0', 'view 0 s', 'view 0 l', 'sphases 0 g,l', 'view 0 s', 'sphases 0 g,l,s', 'view 0 s']),
         # (#27) restoring a snapshot that lacks a phase holding material now
-        Case(['new S l 300 101325 3,0,0', 'lle', 'save', 'vle', 'wpar g 0 1', 'restore 0']),
-        Case(['new S g 300 101325 3,0,0', 'save', 'sphase l', 'lle', 'save', 'restore 0', 'restore 1', 'restore 0']),
-        Case(['new M L,l 320 90000 L:1,1,1', 'save', 'sphases g,s', 'restore 0']),
+        Case(['new S l 300 101325 3,0,0', 'lle 0', 'save 0', 'vle 0', 'wpar 0 g 0 1', 'restore 0 0']),
+        Case(['new S g 300 101325 3,0,0', 'save 0', 'sphase 0 l', 'lle 0', 'save 0', 'restore 0 0', 'restore 0 1', 'restore 0 0']),
+        Case(['new M L,l 320 90000 L:1,1,1', 'save 0', 'sphases 0 g,s', 'restore 0 0']),
         # an empty single-phase stream may take any phase set; a failed conversion must leave the stream intact
-        Case(['new S g 300 101325 0,0,0', 'sphases L,l', 'wpar l 0 1']),
-        Case(['new S g 300 101325 1,0,0', 'sphases L,l', 'wT 310', 'sphases g,l']),
-        Case(['new S S 300 101325 1,0,0', 'vle', 'sle']),
+        Case(['new S g 300 101325 0,0,0', 'sphases 0 L,l', 'wpar 0 l 0 1']),
+        Case(['new S g 300 101325 1,0,0', 'sphases 0 L,l', 'wT 0 310', 'sphases 0 g,l']),
+        Case(['new S S 300 101325 1,0,0', 'vle 0', 'sle 0']),
         # case folding: only when the exact label is absent
-        Case(['new M L,l 300 101325 L:1,0,0;l:0,2,0', 'sphases g,l', 'sphases L,g', 'sphases L,l', 'reduce']),
-        Case(['new M L,S,g 300 101325 L:1,0,0;S:0,2,0', 'reduce', 'asstream', 'sphases l,s']),
-        Case(['new M L,S,g 300 101325 -', 'asstream', 'sphases g,l', 'reduce']),
-        Case(['new M g,l 300 101325 l:1,0,0;g:0,2,0', 'view g', 'sphases g', 'wview 0 0 4', 'wvT 0 350', 'sphases g,l', 'view g']),
+        Case(['new M L,l 300 101325 L:1,0,0;l:0,2,0', 'sphases 0 g,l', 'sphases 0 L,g', 'sphases 0 L,l', 'reduce 0']),
+        Case(['new M L,S,g 300 101325 L:1,0,0;S:0,2,0', 'reduce 0', 'asstream 0', 'sphases 0 l,s']),
+        Case(['new M L,S,g 300 101325 -', 'asstream 0', 'sphases 0 g,l', 'reduce 0']),
+        Case(['new M g,l 300 101325 l:1,0,0;g:0,2,0', 'view 0 g', 'sphases 0 g', 'wview 0 0 4', 'wvT 0 350', 'sphases 0 g,l', 'view 0 g']),
         # a snapshot is a copy: later writes must not leak into it
-        Case(['new S g 300 101325 3,0,0', 'save', 'wpar - 0 5', 'wT 350', 'sphase l', 'restore 0']),
-        Case(['new M g,l 300 101325 l:1,0,0;g:0,2,0', 'save', 'wpar l 0 5', 'view l', 'wview 0 1 1', 'restore 0']),
+        Case(['new S g 300 101325 3,0,0', 'save 0', 'wpar 0 - 0 5', 'wT 0 350', 'sphase 0 l', 'restore 0 0']),
+        Case(['new M g,l 300 101325 l:1,0,0;g:0,2,0', 'save 0', 'wpar 0 l 0 5', 'view 0 l', 'wview 0 1 1', 'restore 0 0']),
         # both liquid labels present: 'l' and 'L' are different rows
-        Case(['new M L,l 300 101325 L:1,0,0', 'wpar l 1 2', 'wpar L 2 3', 'view l', 'view L', 'vphase 0 L', 'vphase 1 L']),
+        Case(['new M L,l 300 101325 L:1,0,0', 'wpar 0 l 1 2', 'wpar 0 L 2 3', 'view 0 l', 'view 0 L', 'vphase 0 L', 'vphase 1 L']),
         # reduce_phases keeps a place for upper-case phases
-        Case(['new M L,s 300 101325 L:0,0,95;s:225/4,0,0', 'reduce']),
-        Case(['new M L,S,g 300 101325 S:1,0,0', 'asstream']),
+        Case(['new M L,s 300 101325 L:0,0,95;s:225/4,0,0', 'reduce 0']),
+        Case(['new M L,S,g 300 101325 S:1,0,0', 'asstream 0']),
+        # unlink after a link: the views follow the stream to its own copy (4329d3a)
+        Case(['new M g,l 300 101325 l:4,0,0;g:0,2,0', 'new M g,l 350 90000 l:1,0,0', 'view 0 l', 'link 0 1 1 1', 'unlink 0',
+              'wpar 0 l 0 7', 'wT 0 333']),
+        Case(['new M g,l 300 101325 l:4,0,0;g:0,2,0', 'view 0 l', 'view 0 g', 'unlink 0', 'wview 0 0 9', 'wvT 1 400']),
+        # link_with must re-seat the cached views (C12-5)
+        Case(['new M g,l 300 101325 l:4,0,0;g:0,2,0', 'new M g,l 350 90000 l:1,0,0;g:0,0,5', 'view 0 l', 'link 0 1 1 1',
+              'wpar 1 l 0 7', 'wT 1 333']),
+        Case(['new M g,l 300 101325 l:4,0,0', 'new M g,l 350 90000 l:1,0,0', 'view 0 l', 'link 0 1 0 1', 'wT 1 333']),
+        # phases grow in place under cached views: copy_like and mix_from
+        Case(['new M g,l 300 101325 l:4,0,0;g:0,2,0', 'new M L,l,s 360 80000 L:0,1,0;s:0,0,5;l:1,0,0', 'view 0 l', 'view 0 g',
+              'copylike 0 1', 'wview 0 0 3', 'mix 0 0,1', 'view 0 L']),
+        Case(['new M g,l 300 101325 l:4,0,0;g:0,2,0', 'new S S 320 70000 0,0,2', 'view 0 l', 'mix 0 0,1', 'view 0 s',
+              'copylike 0 1', 'wview 1 0 1']),
+        Case(['new S l 300 101325 1,0,0', 'new M g,l 350 90000 l:1,0,0;g:0,0,5', 'copylike 0 1', 'view 0 g', 'mix 0 1,1', 'mix 1 0,0']),
+        # _reset_thermo gives the indexer new rows
+        Case(['new M g,l 300 101325 l:4,0,0;g:0,2,0', 'view 0 l', 'thermo 0 1', 'wview 0 0 2', 'thermo 0 1', 'thermo 0 0',
+              'new S g 300 101325 1,1,1', 'mix 0 0,1', 'copylike 1 0']),
+        # a proxy shares indexer, thermal condition and view dict
+        Case(['new M g,l 300 101325 l:4,0,0;g:0,2,0', 'view 0 l', 'proxy 0', 'view 1 g', 'wpar 1 l 0 2', 'wT 1 350',
+              'new S s 300 101325 0,1,0', 'mix 0 0,2', 'view 1 s']),
     ]
 
 
@@ -604,7 +886,9 @@ def search(case, rng, budget_s):
                 except Exception: pass
             U.show()
             for _ in range(rng.randrange(1, 8)):
-                l = gen_op(rng, U); ops.append(l)
+                l = gen_op(rng, U)
+                if not in_model(U, l): continue
+                ops.append(l)
                 try: U.apply(l)
                 except Exception: pass
                 U.show()
